@@ -18,18 +18,21 @@ Tr == ndJsonDeserialize(TraceFile)
 VARIABLES l,      \* index of the last consumed trace line
           st,     \* abstract state after line l
           g,      \* ghost state after line l
-          hits    \* set of <<event name, check name>> whose antecedent was true (vacuity measure)
+          hits,   \* set of <<event name, check name>> whose antecedent was true (vacuity measure)
+          failing \* state-invariant checks (<<name, info>>) already failing in the previous state: a broken
+                  \* invariant is reported at the step that broke it, not at every later observation
 
-vars == <<l, st, g, hits>>
+vars == <<l, st, g, hits, failing>>
 
 Init == /\ l = 1
         /\ Tr[1].kind = "Reset"
         /\ st = Tr[1].state
         /\ g = GhostInit(Tr[1].state)
         /\ hits = {}
+        /\ failing = {}
 
 Report(i, line, cs) ==
-  \A c \in {c \in cs : ~c.ok} :
+  \A c \in {c \in cs : ~c.ok /\ <<c.name, c.info>> \notin failing} :
      PrintT(<<IF c.kf = "" THEN "FAIL" ELSE "KNOWN", i, c.prop, c.name, c.kf, line.kind, line.ev.name, line.h, c.info>>)
 
 Next ==
@@ -41,16 +44,19 @@ Next ==
             /\ g' = GhostInit(line.state)
             /\ LET cs == InvChecks(line.state, GhostInit(line.state)) IN
                  /\ Report(l + 1, line, cs)
+                 /\ failing' = {<<c.name, c.info>> : c \in {c \in cs : ~c.ok}}
                  /\ hits' = hits
      ELSE IF line.kind = "Halt"
-       THEN /\ st' = st /\ g' = g
+       THEN /\ st' = st /\ g' = g /\ failing' = failing
             /\ LET cs == StepChecks("Halt", line.ev, st, st, g) IN
                  /\ Report(l + 1, line, cs)
                  /\ hits' = hits \cup {<<line.ev.name, c.name>> : c \in cs}
      ELSE /\ st' = line.state
           /\ g' = GhostNext(line.kind, line.ev, st, line.state, g)
-          /\ LET cs == StepChecks(line.kind, line.ev, st, line.state, g) \cup InvChecks(line.state, g') IN
+          /\ LET ics == InvChecks(line.state, g')
+                 cs == StepChecks(line.kind, line.ev, st, line.state, g) \cup ics IN
                /\ Report(l + 1, line, cs)
+               /\ failing' = {<<c.name, c.info>> : c \in {c \in ics : ~c.ok}}
                /\ hits' = hits \cup {<<line.ev.name, c.name>> : c \in {c \in cs : c.live}}
   /\ (l + 1 = Len(Tr)) => \A h \in hits' : PrintT(<<"HIT", h[1], h[2]>>)
 
